@@ -66,6 +66,13 @@ def closures(tier: str) -> List[Dict[str, Any]]:
     spaced = {"root.yaml": "constants:\n  N_CH: 4\nstruct_defs:\n  SP:\n    fields:\n      a: int32 [N_CH]\n      b: char[ 16 ]\n      c: double [ 2 ]\n"
                            "message_defs:\n  SPM:\n    id: 4520\n    fields:\n      s: SP [2]\n      t: uint8[N_CH ]\n      u:   float\n"}
     out.append({"files": spaced, "kw": {"import_coredefs": False}, "label": "field specs with blanks inside", "feats": []})
+    # large reserved blocks in several files of one closure (each within what a single block may hold; 60 + 60 + 90 ids in all)
+    big = {"root.yaml": {"imports": ["rig_a.yaml", "rig_b.yaml"],
+                         "message_defs": {"_RESERVED_": {"id": ["4600 - 4629", "4640 to 4669"]}, "RT": {"id": 4630, "fields": {"a": "int32"}}}},
+           "rig_a.yaml": {"message_defs": {"_RESERVED_": {"id": ["4700 - 4759"]}, "RA": {"id": 4760, "fields": None}}},
+           "rig_b.yaml": {"message_defs": {"_RESERVED_": {"id": ["4800 to 4889"]}, "RB": {"id": 4890, "fields": {"b": "double"}}}}}
+    out.append({"files": defx.Program(big).to_json()["files"], "kw": {"import_coredefs": False}, "label": "large reserved blocks in three files", "feats": []})
+    out.append({"files": defx.Program(big).to_json()["files"], "kw": {"import_coredefs": True}, "label": "large reserved blocks in three files + core", "feats": []})
     seqs = c04.sequences("quick")[:: 40]
     prog, _ = c04.batch_program(seqs, 2)
     out.append({"files": prog.to_json()["files"], "kw": {}, "label": "packed C04-style program (diamond imports)", "feats": []})
